@@ -32,7 +32,7 @@ BOUND = {
 }
 TIME_CAP = {"quick": 300, "thorough": 3000}
 
-KINDS = ["f8", "i8", "u1", "b1", "str", "U", "D", "us", "td"]
+KINDS = ["f8", "i8", "u1", "b1", "str", "U", "D", "us", "ns", "td"]
 PAIRS_Q = [("f8", "str"), ("str", "D"), ("D", "f8"), ("i8", "U"), ("b1", "us"), ("f8", "f8"), ("str", "str"), ("us", "b1")]
 PAIRS_T = PAIRS_Q + [("U", "str"), ("us", "i8"), ("D", "D"), ("u1", "f8")]
 BASE = 1009  # digest base > max rows + 1 (Python ints: no overflow)
